@@ -118,6 +118,22 @@ def scn_chain(T, case):
     except PlanAborted:
         refused = True
     T.prove("C15.plan.abort_is_latched_and_refuses_steps", refused and child.aborted is True)
+    # the latch survives running the plan's function again (a nested plan is run once per evaluation of the outer step): the
+    # function sees the plan aborted, the steps it tries are refused, and the plan is still aborted afterwards
+    seen = []
+
+    def function(plan, *args):
+        seen.append(plan.aborted)
+        try:
+            plan.run_step("s")
+            seen.append("step ran")
+        except PlanAborted:
+            seen.append("refused")
+        return "done"
+
+    child.add_function(function)
+    out = child.run_function(1.0)
+    T.prove("C15.plan.abort_latch_survives_running_the_plan_function_again", out == "done" and seen == [True, "refused"] and child.aborted is True)
 
 
 def cases_nested(tier):
@@ -252,33 +268,39 @@ def scn_callbacks(T, case):
         real.Plan = FakePlan
         cls = real.BasicOptimizer
     try:
-        bo = object.__new__(cls)
-        bo._config, bo._transforms, bo._constraint_tolerance, bo._kwargs, bo._observers = {}, None, 1e-10, {}, []
-        bo._optimizer_context = types.SimpleNamespace(add_observer=lambda et, fn: registered.append((et, fn)))
+        # the object is made by its real constructor (real OptimizerContext); its callbacks are observed where the statement puts
+        # them: at the observers of the context, by delivering events
+        bo = cls({"variables": {"initial_values": [0.0]}}, lambda x, c: None)
         abort_cb = lambda: log.append("abort-check") or case["abort"]  # noqa: E731
         results_cb = lambda results: log.append(("results", results))  # noqa: E731
         if case["order"] == "abort-first":
             bo.set_abort_callback(abort_cb).set_results_callback(results_cb)
         else:
             bo.set_results_callback(results_cb).set_abort_callback(abort_cb)
-        bo.run()
+        payload = ("r0", "r1")
+        for run in (1, 2, 3):
+            bo.run()
+            # after the first, the second and the third run of the SAME object: one event, one invocation of each callback
+            for et in (EventType.START_EVALUATION, EventType.FINISHED_EVALUATION):
+                del log[:]
+                ev = Event(event_type=et, config=None, source="optimizer-step-id", data={"results": payload} if et == EventType.FINISHED_EVALUATION else {})
+                try:
+                    bo._optimizer_context.call_observers(ev)
+                    raised = None
+                except OptimizationAborted as exc:
+                    raised = exc.exit_code
+                if et == EventType.START_EVALUATION:
+                    T.prove("C15.basic.start_of_an_evaluation_runs_the_abort_check_once_and_nothing_else", log == ["abort-check"] and (raised == OptimizerExitCode.USER_ABORT) == case["abort"], "run %d: %r" % (run, log))
+                else:
+                    T.prove("C15.basic.finished_evaluation_reports_the_results_once_and_nothing_else", log == [("results", payload)] and raised is None, "run %d: %r" % (run, log))
+            for et in EventType:
+                if et not in (EventType.START_EVALUATION, EventType.FINISHED_EVALUATION):
+                    del log[:]
+                    bo._optimizer_context.call_observers(Event(event_type=et, config=None, source="optimizer-step-id", data={}))
+                    T.prove("C15.basic.other_events_reach_no_callback", log == [], "%s: %r" % (et.name, log))
     finally:
         if restore:
             restore[0].Plan = restore[1]
-    T.prove("C15.basic.one_observer_per_callback_for_its_own_event_type", sorted(et.name for et, _ in registered) == ["FINISHED_EVALUATION", "START_EVALUATION"])
-    payload = ("r0", "r1")
-    for et, fn in registered:
-        del log[:]
-        ev = Event(event_type=et, config=None, source="optimizer-step-id", data={"results": payload} if et == EventType.FINISHED_EVALUATION else {})
-        try:
-            fn(ev)
-            raised = None
-        except OptimizationAborted as exc:
-            raised = exc.exit_code
-        if et == EventType.START_EVALUATION:
-            T.prove("C15.basic.start_of_an_evaluation_runs_the_abort_check_and_nothing_else", log == ["abort-check"] and (raised == OptimizerExitCode.USER_ABORT) == case["abort"], repr(log))
-        else:
-            T.prove("C15.basic.finished_evaluation_reports_the_results_and_nothing_else", log == [("results", payload)] and raised is None, repr(log))
 
 
 SCENARIOS = [
